@@ -34,5 +34,5 @@ PROP = dict(
                "nothing invented, order kept inside batches, bounded fault-free completion with a strictly decreasing measure and "
                "deadlock freedom; over ALL operation sequences of the lq table: no value twice, acknowledgement by id, fields kept; "
                "hop/path round trip for all hop counts. Tied to the code by running the REAL hq.Start goroutines against a fake HQ "
-               "with generated fault sequences (incl. outages: the same request failing 3..6 times in a row; outlinks made by the real postprocessor for pages behind redirects and for child-asset documents; real finisher workers with pause/resume during an outage; fetch rounds of 2..4 concurrent gets with single sub-fetches failing), the REAL lq.Start goroutines and the REAL LQClient on scratch SQLite files, every run.",
+               "with generated fault sequences (incl. outages: the same request failing 3..6 times in a row; outlinks made by the real postprocessor for pages behind redirects and for child-asset documents; real finisher workers with pause/resume during an outage; fetch rounds of 2..4 concurrent gets with single sub-fetches failing; a partial ack batch pending at the flush tick while the batch channel is backed up by a DELETE outage; more than two full lq producer batches in one go), the REAL lq.Start goroutines and the REAL LQClient on scratch SQLite files, every run.",
 )
